@@ -217,6 +217,13 @@ def main():
                 os.close(1)
             if "stderr" not in hold:
                 os.close(2)
+            if ch.get("own_group"):
+                # a daemon-like descendant: it leaves the test's process group (and session) but keeps the
+                # inherited stdout / stderr open
+                try:
+                    os.setsid()
+                except OSError:
+                    os.setpgid(0, 0)
             log({"ev": "child-start", "test": name, "attempt": attempt, "pgid": os.getpgid(0)})
             end = time.monotonic() + ch.get("for", 1.0)
             every = ch.get("write_every")
